@@ -36,18 +36,14 @@ def overcountHistory : List COp :=
   [.base .begin, .base (.app 1 (-100) 1), .base (.app 1 0 2), .base (.app 1 0 3), .base (.app 2 (-98) 4),
    .base .commit, .stat]
 
-/-- `chunks_gauge_overcount_witness` — the chunks gauge says 4, the head holds 3 chunks: `commitFloats`
-    declares `chunkCreated` outside its loop, the rejected sample leaves it `true`, and
-    `onChunkCreated` runs a second time for the previous sample's chunk (reproduced on the real DB). -/
-theorem chunks_gauge_overcount_witness :
+/-- On the history of finding C52-F1 the chunks gauge now equals the recount (3 chunks): the repair
+    "fix: tsdb: head chunks gauge over-counts when a sample is rejected at commit time" (b8a3360070)
+    resets `chunkCreated` for every sample and the model follows (`repoFixedChunkCreated = true`).
+    Before the repair the gauge said 4 (`onChunkCreated` ran a second time for the previous sample's
+    chunk; reproduced on the real DB, see known_findings.jsonl `fixed` C52-F1). -/
+theorem chunks_gauge_after_fix_witness :
     let c := (CDb.init ⟨100, 0⟩ 2).after overcountHistory
-    c.gauges = [2, 0, 4, 0] ∧ c.recount = [2, 0, 3] := by
-  decide
-
-theorem counters_match_full_witness : ¬ counters_match_full := by
-  intro h
-  have := (h ⟨100, 0⟩ 2 overcountHistory).1
-  revert this
+    c.gauges = [2, 0, 3, 0] ∧ c.recount = [2, 0, 3] := by
   decide
 
 /-- Series, stale series and active appenders on that history agree with the recount
